@@ -1,16 +1,18 @@
 \* MUST VIOLATE CrossObject: as found R is reset two lines before S (R4)
 SPECIFICATION Spec
 CONSTANTS
-  Regs = {"r1", "r2"}
+  Regs = {"r1"}
   Srcs = {"detector", "api"}
-  RFams = {"v4", "v6"}
+  RFams = {"v6"}
   Gens = {"g1"}
   TTs = {"min"}
   LVs = {"l1"}
   Variant = "as_found"
   Broken = "none"
+  MapWindow = TRUE
   MaxPrints = 2
-  MaxFree = 1
+  MaxFree = 0
 VIEW view
+CONSTRAINT Canon
 INVARIANTS CrossObject
 CHECK_DEADLOCK FALSE
